@@ -417,5 +417,9 @@ class PropertyConcept(OntologyElement):
             del attribs['attr-extension']
             del attribs['attr-display-name-singular']
             del attribs['attr-display-name-plural']
+        elif self.__attr['attr-display-name-singular'] == '' and self.__attr['attr-display-name-plural'] == '':
+            # The attribute uses the display names of the object type
+            del attribs['attr-display-name-singular']
+            del attribs['attr-display-name-plural']
 
         return etree.Element('property-concept', attribs)
